@@ -26,6 +26,11 @@ CHECKS = {
    note="Trusted: Coq kernel; translator rust2coq.py; LangRef semantics transcribed in Base/Bits.v; interpreter Model/Sem.v (documented semantics); LLVM 14 and lli; the typer. Print Assumptions: closed.",
    technique="Coq proof over translator-generated selection tables (bit-vector semantics) + exhaustive opcode correspondence + differential execution against an extracted interpreter",
    design="5/C01"),
+ "C12": dict(
+   text="Machine-checked proof (Coq) about the import expander: for every iteration order of the import set, each module receives exactly the signatures (bodies dropped, Public cleared, everything else kept) of the public declarations of the modules it imports directly, never private items and never items those modules imported themselves; two iteration orders differ only in the order of the spliced groups (and do differ as lists: the pinned commit's HashSet order is refuted by a witness and was repaired); the sorted order of the current tree is a function of the import set alone. Tie: the real lexer+parser+expander vs the extracted model on random module sets (exact equality of the declaration lists) and 6-fold re-expansion for determinism. Composition (split program = single file, every file order; private items rejected) is established by execution, not proof.",
+   note="Trusted: Coq kernel; hand model Model/Expand.v; path resolution is a parameter of the model (flat names in the check); execution through LLVM/lli. Fixed defects: D3 (hash-order nondeterminism), D20 (segfault when two modules use print!). Print Assumptions: closed.",
+   technique="Coq proof for all iteration orders (permutation-parametric model) + differential correspondence + metamorphic execution over module partitions and file orders",
+   design="5/C12"),
 }
 
 NOT_YET = {
